@@ -26,13 +26,13 @@ CLAIMS = {
  "C12": "guard accounting for every abstract state x clean/poisoned x non-blocking operation (found and fixed D2a), guard only if the caller's own CAS won under interference (found and fixed D2b), cancelled lock forwards the hand-off exactly once, cancelled read releases the reader mutex before the cancel panic. Fairness not decided.",
  "C13": "poison truth table (poisoned iff a panic started under the guard and it is not a cancellation unwind) and delivery of exactly the panic payload / Cancel by join(). Worker survival and stack reuse after a panic are NOT decided (generator shim).",
  "C14": "Join::wait returns only when the joined coroutine has finished, also when the waiter's park is ended by a cancellation (found and fixed D4 together with the scoped join running with cancel disabled). Scope::drop_all bookkeeping and Cqueue::drop are not yet under contract.",
- "C18": "time-out conversion read by every I/O time-out (AtomicDuration::get) never lost / never early; timer handle removed and handed to del_timer after a timed park. The epoll-side timer hygiene (EventData) is not yet under contract.",
+ "C15": "NARROW claim: the passed-in result (time-out / cancel error) is consumed before park returns and before the cancel panic, so it cannot leak into the next coroutine on a pooled stack (C02.10), and the panic branch of run_coroutine hands the coroutine to the recycler exactly once after the join trigger (C13.1b). Privacy of LocalKey values (HashMap) and freshness of the CoroutineLocal attached by spawn are NOT decided: the life-cycle harnesses exceed CBMC's limits (DESIGN.md §9.2 item 7).",
+ "C16": "poll's register-then-recheck against one select coroutine sending or ending at each of the poller's observation points (never parks unregistered or with an event queued; returns exactly the event sent, its bottom half started exactly once; Done events are not returned and trigger check_panic once; Finished only with the counter at zero); sender side pushes the event with the coroutine inside before waking. Multi-arm schedules, time-outs and Cqueue::drop are NOT decided.",
+ "C17": "socket read only (the template all I/O operations follow): the try-io / re-check / yield loop clears the readiness flag before every syscall, suspends only with the flag clear, returns the kernel result verbatim (bounded: 3 attempts per call); subscribe publishes the coroutine before re-reading the flag and resumes it itself when an edge raced ahead; the selector side hands the coroutine over exactly once. Write / accept / connect / datagram operations, the epoll loop, kernel semantics and the thread proxy are NOT under contract.",
+ "C18": "time-out conversion read by every I/O time-out (AtomicDuration::get) never lost / never early; timer handle removed and handed to del_timer after a timed park. I/O timer armed before the coroutine is published and iff a time-out is set; cancel re-check in the socket subscribe (C17.2a-d). timeout_handler and the epoll-side timer removal are not under contract.",
  "C19": "push post-state and consumer-spins-while-push-in-flight as complete white-box obligations; sequential exactly-once / order / remove semantics / reference counting as bounded scenario stand-ins with symbolic payloads under CBMC pointer checks. Concurrent push vs remove is NOT decided.",
 }
 NOT_YET = {
- "C15": "not claimed yet: coroutine-local storage obligations under construction",
- "C16": "not claimed yet: cqueue obligations under construction",
- "C17": "not claimed yet: socket I/O loop obligations under construction",
 }
 
 def main():
